@@ -996,7 +996,11 @@ func (p *c16Parent) start(spec c16Spec, crashAt int) *c16Proc {
 	pr := &c16Proc{done: make(chan struct{}), t0: time.Now()}
 	raw, _ := json.Marshal(spec)
 	pr.outDir, _ = os.MkdirTemp(p.root, "out-")
-	pr.ctx, pr.cancel = context.WithTimeout(context.Background(), c16ChildTimeout)
+	timeout := c16ChildTimeout
+	if spec.IL != nil || len(spec.Jobs) > 40 {
+		timeout = 10 * c16ChildTimeout // many schedules / batched jobs in one worker (still only a safety net)
+	}
+	pr.ctx, pr.cancel = context.WithTimeout(context.Background(), timeout)
 	// small specs travel on the command line, big ones (batched recovery jobs) in a file
 	arg := "worker:" + base64.StdEncoding.EncodeToString(raw)
 	if len(arg) > 60_000 {
@@ -2934,7 +2938,7 @@ func (p *c16Parent) p7Case(env *c16Env, idx, mi int, reader string, crash int) *
 	// quick tier: every (w1, w2) pair for FetchFromCache from the empty cache; otherwise only
 	// "W stays" and "W finishes" for a parked reader; thorough and -focus: every pair everywhere
 	sp.IL = &c16ILSpec{Mod: mi, Reader: reader, Template: tmpl, Races: 2,
-		Sweep: (crash == 0 && reader == "fromcache") || p.c.Thorough() || p.c.Focus}
+		Sweep: (crash == 0 && reader == "fromcache") || ((p.c.Thorough() || p.c.Focus) && (reader == "fromcache" || mi == 0))}
 	proc := p.start(sp, 0)
 	<-proc.done
 	raw := proc.stdout.String()
